@@ -23,7 +23,7 @@ CHECKS = {
          "DESIGN.md 6.C05", "E1"),
  "C19": ("model_checking",
          "explicit-state BFS to closure over the real arbiter (fresh elaboration + history replay per transition) against a pointer model; fairness as safety on the product graph",
-         "All reachable priority-register states of RoundRobinArbiter(En) for nreqs 2..6 (8 thorough) under every (reqs,en,reset) letter are visited by executing the "
+         "All reachable priority-register states of RoundRobinArbiter(En) for nreqs 2..6 (10 thorough) under every (reqs,en,reset) letter are visited by executing the "
          "real simulator; grants, pointer update, reset and the wait bound are compared with an integer pointer model in every transition.",
          "Trusted: the 15-line pointer model. Only nreqs up to the bound; DefaultPassGroup scheduling (schedule independence is C01's subject).",
          "DESIGN.md 6.C19", "E1"),
